@@ -45,6 +45,9 @@ class Simulator:
         """Compact rendering of a plan for the evidence file."""
         return plan
 
+    def prepare(self, profiles: list[str]) -> None:
+        """Called once in the parent before workers are forked (import what the profiles need lazily)."""
+
 
 @dataclass
 class CheckSpec:
@@ -249,6 +252,7 @@ def run_check(spec: CheckSpec, tier: str, base_seed: int, workers: int | None = 
               runs_override: int | None = None, write_evidence: bool = True) -> int:
     t_start = time.time()
     sim = get_sim(spec.sim)          # import in the parent so forked workers share it
+    sim.prepare(spec.profiles)
     n_runs = runs_override or (spec.runs_quick if tier == "quick" else spec.runs_thorough)
     wall_cap = spec.wall_quick if tier == "quick" else spec.wall_thorough
     if os.environ.get("VERIF_WALL"):
@@ -306,10 +310,18 @@ def run_check(spec: CheckSpec, tier: str, base_seed: int, workers: int | None = 
             prof = spec.profiles[i % len(spec.profiles)]
             s = derive_seed(base_seed, spec.property, tier, i)
             futures.append(pool.submit(_worker, (spec.sim, prof, tier, s, spec.run_timeout, i)))
-        deadline = t_start + wall_cap
+        # the wall cap bounds the search phase (imports, witnesses and the self-test above are not charged to it); a floor
+        # of 20 % of the requested runs is completed even on a loaded machine (hard cap 6x) so that a starved check
+        # never reports "held" on a handful of runs
+        t_search = time.time()
+        deadline = t_search + wall_cap
+        hard_deadline = t_search + 6 * wall_cap
+        floor = max(1, n_runs // 5)
         cut = False
         for fut in futures:
             remaining = deadline - time.time()
+            if remaining <= 0 and len(results) < floor:
+                remaining = hard_deadline - time.time()
             if remaining <= 0:
                 cut = True
                 fut.cancel()
@@ -327,6 +339,8 @@ def run_check(spec: CheckSpec, tier: str, base_seed: int, workers: int | None = 
                 fut.cancel()
 
     results.sort(key=lambda r: r["index"])
+    if cut and len(results) < floor and not harness_errors:
+        harness_errors.append(f"only {len(results)} of {n_runs} runs completed within {6 * wall_cap:.0f}s (machine starved?)")
     for r in results:
         if r["harness_error"]:
             harness_errors.append(f"run index={r['index']} seed={r['seed']}: {r['harness_error']}")
